@@ -69,7 +69,35 @@ func c20Queries(x *engine.Exec, ref *pendRef) []engine.Failure {
 			out = append(out, f)
 		}
 	}
-	denoms := []string{"aaa", "bbb"}
+	denoms := append([]string{}, s.Denoms...)
+	// validators that x/staking removed although alliance delegation records still point at them (K-C10-validator-removed):
+	// every delegation query that has to price such a record fails
+	const removedCause = "validator-removed-from-staking-with-alliance-delegations"
+	removed := map[int]bool{}
+	delOnRemoved := map[int]bool{}
+	rc := func(cause string, cond bool) string {
+		if cond && (cause == "" || cause == "error") {
+			return removedCause
+		}
+		return cause
+	}
+	for v := range w.Vals {
+		if _, err := w.App.StakingKeeper.GetValidator(ctx, w.Vals[v]); err != nil {
+			for _, p := range s.Pos {
+				if p.V == v {
+					removed[v] = true
+					delOnRemoved[p.D] = true
+				}
+			}
+			x.Cnt.Inc("state.validator_removed_from_staking")
+			for _, u := range ref.Unb {
+				if u.V == v {
+					x.Cnt.Inc("state.pending_unbonding_from_removed_validator")
+					break
+				}
+			}
+		}
+	}
 	unbKey := func(v int, c int64, amt string, den string) string {
 		return fmt.Sprintf("v%d@%d:%s%s", v, c, amt, den)
 	}
@@ -226,7 +254,7 @@ func c20Queries(x *engine.Exec, ref *pendRef) []engine.Failure {
 				}
 				res, err := qs.AlliancesDelegation(ctx, req)
 				if err != nil {
-					add(fail("delegations", "error", "AlliancesDelegation(d%d): %v", d, err))
+					add(fail("delegations", rc("error", delOnRemoved[d]), "AlliancesDelegation(d%d): %v", d, err))
 					break
 				}
 				for _, dr := range res.Delegations {
@@ -238,7 +266,7 @@ func c20Queries(x *engine.Exec, ref *pendRef) []engine.Failure {
 				next = res.Pagination.NextKey
 			}
 			if multiset(got) != multiset(wantPos) {
-				add(fail("delegations", "", "AlliancesDelegation(d%d,limit %d) = [%s], records are [%s]", d, limit, multiset(got), multiset(wantPos)))
+				add(fail("delegations", rc("", delOnRemoved[d]), "AlliancesDelegation(d%d,limit %d) = [%s], records are [%s]", d, limit, multiset(got), multiset(wantPos)))
 			}
 		}
 		for v := range w.Vals {
@@ -250,7 +278,7 @@ func c20Queries(x *engine.Exec, ref *pendRef) []engine.Failure {
 			}
 			res, err := qs.AlliancesDelegationByValidator(ctx, &types.QueryAlliancesDelegationByValidatorRequest{DelegatorAddr: w.Dels[d].String(), ValidatorAddr: w.Vals[v].String()})
 			if err != nil {
-				add(fail("delegations-by-validator", "error", "(d%d,v%d): %v", d, v, err))
+				add(fail("delegations-by-validator", rc("error", removed[v]), "(d%d,v%d): %v", d, v, err))
 			} else {
 				var got []string
 				for _, dr := range res.Delegations {
@@ -265,7 +293,7 @@ func c20Queries(x *engine.Exec, ref *pendRef) []engine.Failure {
 				res, err := qs.AllianceDelegation(ctx, &types.QueryAllianceDelegationRequest{DelegatorAddr: w.Dels[d].String(), ValidatorAddr: w.Vals[v].String(), Denom: den})
 				x.Cnt.Inc("query.delegation")
 				if err != nil {
-					add(fail("delegation", "error", "AllianceDelegation(d%d,v%d,%s): %v", d, v, den, err))
+					add(fail("delegation", rc("error", removed[v]), "AllianceDelegation(d%d,v%d,%s): %v", d, v, den, err))
 					continue
 				}
 				bal := res.Delegation.Balance.Amount
@@ -327,7 +355,7 @@ func c20Queries(x *engine.Exec, ref *pendRef) []engine.Failure {
 		}
 		res, err := qs.AllAlliancesDelegations(ctx, &types.QueryAllAlliancesDelegationsRequest{})
 		if err != nil {
-			add(fail("all-delegations", "error", "%v", err))
+			add(fail("all-delegations", rc("error", len(removed) > 0), "%v", err))
 		} else {
 			for _, dr := range res.Delegations {
 				di := -2
@@ -339,7 +367,7 @@ func c20Queries(x *engine.Exec, ref *pendRef) []engine.Failure {
 				got = append(got, fmt.Sprintf("d%d/v%d/%s/%s=%s", di, valIdx(dr.Delegation.ValidatorAddress), dr.Delegation.Denom, dr.Delegation.Shares, dr.Balance.Amount))
 			}
 			if multiset(got) != multiset(want) {
-				add(fail("all-delegations", "", "AllAlliancesDelegations = [%s], records are [%s]", multiset(got), multiset(want)))
+				add(fail("all-delegations", rc("", len(removed) > 0), "AllAlliancesDelegations = [%s], records are [%s]", multiset(got), multiset(want)))
 			}
 		}
 	}
@@ -487,10 +515,39 @@ func init() {
 					Required: []string{"query.unbondings.nonempty", "query.redelegations.followed_next_key", "state.bucket_with_2plus_entries", "state.after_slash", "probe.undelegate_balance", "query.binding.alliance", "query.binding.delegation", "state.after_genesis_reimport", "query.binding.rewards_nonzero"},
 				}
 			}
-			if tier == "thorough" {
-				return []*engine.Scenario{mk("c20-queries", []int{4, 1, 1, 2, 0}, 7)}
+			// a validator that x/staking removes while alliance undelegations from it are still queued: V2 carries only a
+			// warming-up asset (no module stake on it), its native delegator leaves, the alliance delegators leave later
+			rcfg := world.DefaultConfig()
+			rcfg.FullPipeline = true
+			rcfg.Assets = []world.AssetCfg{
+				{Denom: "aaa", Weight: "1", Min: "0", Max: "5", TakeRate: "0"},
+				{Denom: "ccc", Weight: "2", Min: "0", Max: "5", TakeRate: "0", StartOffset: 12 * U},
 			}
-			return []*engine.Scenario{mk("c20-queries", []int{3, 1, 1, 2, 0}, 4)}
+			rcfg.DelFunds["ccc"] = "1000000000000"
+			removed := func(budgets []int, depth int) *engine.Scenario {
+				return &engine.Scenario{
+					Property: "C20", Name: "c20-validator-removed", Cfg: rcfg, Stores: world.AllStores,
+					Seeds:      [][]world.Op{{opDel(0, 0, "aaa", "1000000"), opDel(0, 2, "ccc", "1000"), opDel(1, 2, "ccc", "500"), opBlock(1)}},
+					ClassNames: classNames, Budgets: budgets, MaxDepth: depth,
+					NewRef: func(w *world.World, root *engine.Node) engine.Ref { return newPendRef() },
+					Ops: func(n *engine.Node) []world.Op {
+						return []world.Op{
+							{K: world.KUndelegate, D: 0, V: 2, Denom: "ccc", Amt: "300", Class: ClsUser},
+							{K: world.KUndelegateAll, D: 1, V: 2, Denom: "ccc", Class: ClsUser},
+							{K: world.KUndelegate, D: 0, V: 0, Denom: "aaa", Amt: "300", Class: ClsUser},
+							{K: world.KNUndelegateAll, D: 99, V: 2, Class: ClsEnv},
+							{K: world.KBlock, Dt: int64(U), Class: ClsBlock},
+							{K: world.KBlock, Dt: int64(2 * U), Class: ClsBlock},
+						}
+					},
+					Step: c20Step, SeedStep: true,
+					Required: []string{"query.unbondings.nonempty", "state.validator_removed_from_staking", "state.pending_unbonding_from_removed_validator"},
+				}
+			}
+			if tier == "thorough" {
+				return []*engine.Scenario{mk("c20-queries", []int{4, 1, 1, 2, 0}, 7), removed([]int{3, 0, 1, 5, 0}, 9)}
+			}
+			return []*engine.Scenario{mk("c20-queries", []int{3, 1, 1, 2, 0}, 4), removed([]int{2, 0, 1, 4, 0}, 7)}
 		},
 		Assumptions: []string{
 			"reference enumeration: the list-based model of pending unbondings/redelegations (the one C02/C07/C15 validate against the store) and a raw decode of the delegation records",
